@@ -9,6 +9,8 @@ from .vals import *
 from .core import *
 from .interp_call import SRange, SEnum
 
+_KW_USERS = {}
+
 TYPE_NAMES = {'int', 'str', 'bool', 'list', 'tuple', 'dict', 'set', 'slice', 'type', 'object', 'float',
               'decimal.Decimal', 'datetime.date', 'collections.abc.Hashable', 'typing.Sequence', 'typing.Mapping'}
 
@@ -22,6 +24,13 @@ class BuiltinMixin:
         ext = getattr(self.d.contract, 'externals', None) or {}
         if m is None and name in ext:
             nres = ext[name]
+            creq = (getattr(self.d.contract, 'call_requires', None) or {}).get(name)
+            if creq is not None and not self.specmode:
+                # what the function hands to this external is part of its contract: an obligation over the caller's state at the call
+                env = dict(fr.closure)
+                env.update(fr.env)
+                env['args'] = STuple(list(args), 'tuple')
+                self.prove(self.truthy(self.eval_contract_fn(creq, env)), 'call-pre', f'arguments of {name}', ln)
             self.d.used_builtins.add('external(uninterpreted, pure): ' + name)
             ts = [self.to_val(a) for a in args] + [self.to_val(v) for k, v in sorted(kw.items())]
             def one(k):
@@ -33,6 +42,18 @@ class BuiltinMixin:
             if name in EXC_PARENTS or name in ('Exception',):
                 return SBuiltin('exc!' + name, STuple(args))
             raise Unsupported(f'builtin {name} not modelled (line {ln})')
+        if kw:
+            # a model that never looks at keyword arguments must not be applied to a call that passes some (key=, default=, start=, ...)
+            uses = _KW_USERS.get(m.__name__)
+            if uses is None:
+                import inspect
+                try:
+                    src = inspect.getsource(m)
+                except (OSError, TypeError):
+                    src = 'kw.'
+                uses = _KW_USERS[m.__name__] = src.count('kw') > 1
+            if not uses:
+                raise Unsupported(f'builtin {name} called with keyword arguments {sorted(kw)} that its model does not interpret (line {ln})')
         return m(fr, f, args, kw, node)
 
     # -- spec helpers
@@ -88,6 +109,14 @@ class BuiltinMixin:
         """isinstance(v, builtin type) as z3 Bool"""
         T, F = z3.BoolVal(True), z3.BoolVal(False)
         if tname == 'object': return T
+        if tname in ('typing.Sequence', 'collections.abc.Sequence'):
+            # lists, tuples and strings are sequences; sets, dicts, numbers, dates, None and plain objects are not
+            if isinstance(v, (SSeq, STuple, SStr)): return T
+            if isinstance(v, SDyn): return z3.Or(Val.is_VSeq(v.t), Val.is_VStr(v.t))
+            return F
+        if tname in ('typing.Mapping', 'collections.abc.Mapping'):
+            if isinstance(v, SDyn): return uf('is_dict', Val, B)(v.t)
+            return T if type(v).__name__ in ('SDict', 'SDictC') else F
         if isinstance(v, SDyn):
             t = v.t
             return {'int': z3.Or(Val.is_VInt(t), Val.is_VBool(t)), 'bool': Val.is_VBool(t), 'str': Val.is_VStr(t),
@@ -246,6 +275,11 @@ class BuiltinMixin:
 
     def b_enumerate(self, fr, f, args, kw, node):
         v = args[0]
+        st = args[1] if len(args) > 1 else kw.get('start')
+        if st is not None:
+            s0 = z3.simplify(self.as_int(st)) if isinstance(st, (SInt, SBool)) else None
+            if s0 is None or not (z3.is_int_value(s0) and s0.as_long() == 0):
+                raise Unsupported('enumerate with a start value other than 0')
         if isinstance(v, STuple):
             start = 0
             return STuple([STuple([lift(i + start), e]) for i, e in enumerate(v.elems)], 'tuple')
